@@ -37,6 +37,7 @@ NO_TRANSLATE = 0x0800
 
 import re as _re
 GROUP_OMIT_RE = _re.compile(r"^(?:noback |nofor )?(?:context|correct|pass[234])\s+\S*[{}][A-Za-z]\S*\s+\S*\?", _re.M)
+ZERO_CTX_RE = _re.compile(r"^(?:noback )?context \[\]\S+ \S*@", _re.M)
 GROUP_REPL_RE = _re.compile(r"^(?:noback |nofor )?(?:context|correct|pass[234])\s+\S*\{([A-Za-z]+)\S*\s+\S*;[A-Za-z]", _re.M)
 
 
@@ -220,6 +221,11 @@ def run(tier):
                 # the shape of finding F37: a rule that tests a grouping character and omits (`?`) makes removeGrouping
                 # rewrite the INPUT; lengths and positions are then reported relative to the rewritten input
                 sig += ":grouping-omit"
+            elif (sig == "complete:fwd" and ZERO_CTX_RE.search(k.case.meta.get("text") or "") and k.R["outlen"] == int(k.op.split(" ")[3])
+                  and k.R["outlen"] > 4 * len(common.unwide(k.op.split(" ")[6]))):
+                # the shape of finding F44: a forward `context` rule with empty brackets at the head of its test emits without
+                # advancing, another rule at the same place does not advance either, and the two alternate until the OUTPUT IS FULL
+                sig += ":zero-width-context-fills-output"
             elif sig == "complete:fwd" and unclosed_group(k.case.meta.get("text"), k.op):
                 # the shape of finding F41: the action `;name` fails when the group is not closed in the pass input, and a
                 # failing action ends the pass as if the output were full
